@@ -458,7 +458,12 @@ func (r *replayer) prepare() error {
 	var sb strings.Builder
 	fmt.Fprintf(&sb, "package %s\n\nimport (\n\t\"testing\"\n\t\"github.com/ipfs/boxo/internal/verifrt\"\n)\n\n", pkgName)
 	sb.WriteString("func TestVerifReplay(t *testing.T) {\n\tverifrt.Main(map[string]func(){\n")
+	seenEntry := map[string]bool{}
 	for _, e := range r.spec.Entries {
+		if seenEntry[e.Func] {
+			continue
+		}
+		seenEntry[e.Func] = true
 		fmt.Fprintf(&sb, "\t\t%q: %s,\n", e.Func, e.Func)
 	}
 	sb.WriteString("\t})\n}\n")
